@@ -1633,6 +1633,14 @@ def _predicts(world, defs, fname):
         it, res = run(cname, "fit", ["self", "y", "X", "fh"])
         v, exits = _split(res)
         _need(v == SELF, cname + ".fit must return self", v)
+        # the resolved settings every later step reads (self.window_length_ in the last-window
+        # extraction and in the prediction loops) are assigned UNCONDITIONALLY from the constructor
+        # parameters on every fit: a refit after set_params must behave like a fresh forecaster
+        for attr, par, chk in (("window_length_", "window_length", "check_window_length"),
+                               ("step_length_", "step_length", "check_step_length")):
+            _need(it.selfattrs.get(attr) == ("call", ("name", chk), (("attr", SELF, par),), ()),
+                  cname + ".fit must set self.%s = %s(self.%s) on every call (no guard, no cache)"
+                  % (attr, chk, par), it.selfattrs.get(attr))
         ky, ay, aX = validated(it.selfattrs.get("_y"), cname + ".fit: self._y")
         kx, by, bX = validated(it.selfattrs.get("_X"), cname + ".fit: self._X")
         _need((ky, kx) == (0, 1) and ay == by == ("name", "y") and aX == bX == Xp,
